@@ -166,29 +166,16 @@ def inGrammar (j : Json) : Bool := (violation true j).isNone
 /-- in the grammar, with string condition values only -/
 def inStringGrammar (j : Json) : Bool := (violation false j).isNone
 
-/-! ## the regions in which the implementation is known to accept documents outside the grammar
+/-! ## a shape the implementation used to accept outside the grammar
 
-(stated here so that the refusal theorem can name them; each has a counterexample in
-`S3V/Findings/C20Policy.lean` and an open finding. Three further regions — a statement with more than one
-principal / action / resource block, a principal block with a malformed value, and the document written
-as an array — were repaired in the code and are no longer excluded.) -/
+(three further ones — a statement with more than one principal / action / resource block, a principal
+block with a malformed value, the document written as an array — need no predicate of their own. All
+four were repaired in the code; no region is excluded from the refusal theorem any more, and
+`S3V/Findings/C20Policy.lean` holds the regression facts.) -/
 
 /-- `{"<name>": null}` where the grammar wants the string `"<name>"` -/
 def enumObjectForm : Json → Bool
   | .obj [(_, .null)] => true
-  | _ => false
-
-def stmtQuirk : Json → Bool
-  | .obj ms => (valuesOf kEffect ms).any enumObjectForm
-  | _ => false
-
-def stmtsQuirk : Json → Bool
-  | .arr items => items.any stmtQuirk
-  | j => stmtQuirk j
-
-/-- the document writes `Version`/`Effect` in object form -/
-def quirk : Json → Bool
-  | .obj ms => (valuesOf kVersion ms).any enumObjectForm || (valuesOf kStatement ms).any stmtsQuirk
   | _ => false
 
 /-! ## the stated shapes: what an accepted document must have whatever else it contains -/
@@ -204,8 +191,8 @@ def statementNodes : Json → List Json
 
 /-- the statement is an object; each of the six blocks occurs at most once (`Sid`, `Effect`, `Condition`
     by name; the principal, the action and the resource block under either of their two names); every
-    `Sid` is a string or null; there is an `Effect` and every `Effect` names `Allow` or `Deny` (as a
-    string, or in the object form of `enumObjectForm`); there is an action block and a resource block and
+    `Sid` is a string or null; there is an `Effect` and every `Effect` is the string `Allow` or `Deny`;
+    there is an action block and a resource block and
     each is a string or a list of strings; every `Condition` is null or a map of maps of strings / lists
     of strings; every principal block is `"*"` or a map of strings / lists of strings -/
 def stmtMust : Json → Bool
@@ -214,7 +201,7 @@ def stmtMust : Json → Bool
     decide ((valuesOf kCondition ms).length ≤ 1) &&
     (valuesOf kSid ms).all (fun v => (optStringValueViol .sidShape v).isNone) &&
     !(valuesOf kEffect ms).isEmpty &&
-    (valuesOf kEffect ms).all (fun v => (effectValueViol v).isNone || enumObjectForm v) &&
+    (valuesOf kEffect ms).all (fun v => (effectValueViol v).isNone) &&
     (match (membersOf2 kAction kNotAction ms).head? with
       | some kv => strOrStrs kv.2
       | none => false) &&
@@ -234,7 +221,7 @@ def headMust : Json → Bool
   | .obj ms =>
     decide ((valuesOf kVersion ms).length ≤ 1) && decide ((valuesOf kId ms).length ≤ 1) &&
     decide ((valuesOf kStatement ms).length ≤ 1) &&
-    (valuesOf kVersion ms).all (fun v => (versionValueViol v).isNone || enumObjectForm v) &&
+    (valuesOf kVersion ms).all (fun v => (versionValueViol v).isNone) &&
     (valuesOf kId ms).all (fun v => (optStringValueViol .idShape v).isNone) &&
     !(valuesOf kStatement ms).isEmpty
   | _ => false
